@@ -67,7 +67,7 @@ theorem tie_nextStmts : nextStmts = [
   "return true",
   "}",
   "return false",
-  "}"] := rfl
+  "}"] := by rfl
 
 /-- `add` — model `add`: empty route ⇒ set the node's own item (dup if set); leading slash ⇒ dupSlash; first slash:
 get-or-create the child under `token` in `getChildren(token)` and recurse on `route[i+1:]`; no slash: set the item of
@@ -109,7 +109,7 @@ theorem tie_addStmts : addStmts = [
   "else{",
   "children[route] = newNode(item)",
   "}",
-  "return nil"] := rfl
+  "return nil"] := by rfl
 
 /-- `node.forEach` — model `forEach`: `children[0]` (literals) before `children[1]` (variables); first callback returning true wins. -/
 theorem tie_forEachStmts : forEachStmts = [
@@ -120,32 +120,32 @@ theorem tie_forEachStmts : forEachStmts = [
   "}",
   "}",
   "}",
-  "return false"] := rfl
+  "return false"] := by rfl
 
 /-- `getChildren` — model `isVar`/`updChild`/`child`: tokens starting with ':' live in `children[1]`, all others in `children[0]`. -/
 theorem tie_getChildrenStmts : getChildrenStmts = [
   "if len(route) > 0 && route[0] == colon {",
   "return nd.children[1]",
   "}",
-  "return nd.children[0]"] := rfl
+  "return nd.children[0]"] := by rfl
 
 /-- `match` — model `matchTok`/`hit`/`varName`: a ':' pattern matches any token and binds `pat[1:]` to it; a literal matches only itself. -/
 theorem tie_matchStmts : matchStmts = [
   "if pat[0] == colon {",
   "return innerResult{ key: pat[1:], value: token, named: true, found: true, }",
   "}",
-  "return innerResult{ found: pat == token, }"] := rfl
+  "return innerResult{ found: pat == token, }"] := by rfl
 
 /-- `addParam` — model `paramMap`: a map write, a later call with the same name overwrites. -/
 theorem tie_addParamStmts : addParamStmts = [
   "if result.Params == nil {",
   "result.Params = make(map[string]string)",
   "}",
-  "result.Params[k] = v"] := rfl
+  "result.Params[k] = v"] := by rfl
 
 /-- `newNode` — model `newNode`: the given item and two empty children maps. -/
 theorem tie_newNodeStmts : newNodeStmts = [
-  "return &node{ item: item, children: [2]map[string]*node{ make(map[string]*node), make(map[string]*node), }, }"] := rfl
+  "return &node{ item: item, children: [2]map[string]*node{ make(map[string]*node), make(map[string]*node), }, }"] := by rfl
 
 /-- `Tree.Search` — model `treeSearch`: not rooted ⇒ not found; else `next(root, route[1:])`. -/
 theorem tie_treeSearchStmts : treeSearchStmts = [
@@ -154,7 +154,7 @@ theorem tie_treeSearchStmts : treeSearchStmts = [
   "}",
   "var result Result",
   "ok := t.next(t.root, route[1:], &result)",
-  "return result, ok"] := rfl
+  "return result, ok"] := by rfl
 
 /-- `Tree.Add` — model `treeAdd`: not rooted ⇒ errNotFromRoot; nil item ⇒ errEmptyItem; else `add(root, route[1:], item)`. -/
 theorem tie_treeAddStmts : treeAddStmts = [
@@ -172,7 +172,7 @@ theorem tie_treeAddStmts : treeAddStmts = [
   "return duplicatedSlash(route)",
   "default:",
   "return err",
-  "}"] := rfl
+  "}"] := by rfl
 
 /-- `patRouter.Handle` — model `handle`: validMethod, then leading '/', then `path.Clean`, then `Add` on the method's tree (created on first use). -/
 theorem tie_handleStmts : handleStmts = [
@@ -189,7 +189,7 @@ theorem tie_handleStmts : handleStmts = [
   "}",
   "tree = search.NewTree()",
   "pr.trees[method] = tree",
-  "return tree.Add(cleanPath, handler)"] := rfl
+  "return tree.Add(cleanPath, handler)"] := by rfl
 
 /-- `patRouter.ServeHTTP` — model `serve`: Clean; search the tree of `r.Method`; hit ⇒ run the item with the params (when any); else `methodsAllowed` ⇒ 404 when none, else 405 with the Allow header. -/
 theorem tie_serveStmts : serveStmts = [
@@ -214,7 +214,7 @@ theorem tie_serveStmts : serveStmts = [
   "else{",
   "w.Header().Set(allowHeader, allows)",
   "w.WriteHeader(http.StatusMethodNotAllowed)",
-  "}"] := rfl
+  "}"] := by rfl
 
 /-- `handleNotFound` — the default is `http.NotFound` (404). -/
 theorem tie_handleNotFoundStmts : handleNotFoundStmts = [
@@ -223,7 +223,7 @@ theorem tie_handleNotFoundStmts : handleNotFoundStmts = [
   "}",
   "else{",
   "http.NotFound(w, r)",
-  "}"] := rfl
+  "}"] := by rfl
 
 /-- `methodsAllowed` — model `methodsAllowed`: every *other* method whose tree finds the path; joined with ", ". -/
 theorem tie_methodsAllowedStmts : methodsAllowedStmts = [
@@ -240,10 +240,157 @@ theorem tie_methodsAllowedStmts : methodsAllowedStmts = [
   "if len(allows) > 0 {",
   "return strings.Join(allows, allowMethodSeparator), true",
   "}",
-  "return \"\", false"] := rfl
+  "return \"\", false"] := by rfl
 
 /-- `validMethod` is a single disjunction of equalities (the tests are tied by `tie_validMethods`). -/
 theorem tie_validMethodStmts : validMethodStmts = [
-  "return method == http.MethodDelete || method == http.MethodGet || method == http.MethodHead || method == http.MethodOptions || method == http.MethodPatch || method == http.MethodPost || method == http.MethodPut"] := rfl
+  "return method == http.MethodDelete || method == http.MethodGet || method == http.MethodHead || method == http.MethodOptions || method == http.MethodPatch || method == http.MethodPost || method == http.MethodPut"] := by rfl
+
+/-! ### custom handlers, path variables, rest.Server / engine wiring -/
+
+/-- `SetNotFoundHandler` — model `PatRouter.notFound` (driver op `setnf`): plain overwrite, nil resets to the default. -/
+theorem tie_setNotFoundStmts : setNotFoundStmts = [
+  "pr.notFound = handler"] := by rfl
+
+/-- `SetNotAllowedHandler` — model `PatRouter.notAllowed` (driver op `setna`). -/
+theorem tie_setNotAllowedStmts : setNotAllowedStmts = [
+  "pr.notAllowed = handler"] := by rfl
+
+/-- `NewRouter` — model `({} : PatRouter)`: no trees, no custom handlers. -/
+theorem tie_newRouterStmts : newRouterStmts = [
+  "return &patRouter{ trees: make(map[string]*search.Tree), }"] := by rfl
+
+/-- `pathvar.Vars` — what a handler sees: the map stored under the context key, nil when none was stored. -/
+theorem tie_pathvarVarsStmts : pathvarVarsStmts = [
+  "vars, ok := r.Context().Value(pathVars).(map[string]string)",
+  "if ok {",
+  "return vars",
+  "}",
+  "return nil"] := by rfl
+
+/-- `pathvar.WithVars` — the params map of the search result is stored as is (no copy, no merge with an outer map). -/
+theorem tie_pathvarWithVarsStmts : pathvarWithVarsStmts = [
+  "return r.WithContext(context.WithValue(r.Context(), pathVars, params))"] := by rfl
+
+/-- `engine.addRoutes` — model `Server.addRoutes`: the group is appended to `ng.routes` (SSE wrapping keeps method and path). -/
+theorem tie_engineAddRoutesStmts : engineAddRoutesStmts = [
+  "if r.sse {",
+  "r.routes = buildSSERoutes(r.routes)",
+  "}",
+  "ng.routes = append(ng.routes, r)",
+  "if r.timeout > ng.timeout {",
+  "ng.timeout = r.timeout",
+  "}"] := by rfl
+
+/-- `engine.bindRoutes` — model `Server.bindRoutes`/`bindAll`: groups in `AddRoutes` order, the first error aborts. -/
+theorem tie_engineBindRoutesStmts : engineBindRoutesStmts = [
+  "metrics := ng.createMetrics()",
+  "range _, fr := ng.routes {",
+  "if err := ng.bindFeaturedRoutes(router, fr, metrics); err != nil {",
+  "return err",
+  "}",
+  "}",
+  "return nil"] := by rfl
+
+/-- `engine.bindFeaturedRoutes` — model `bindAll` over `Group.regs`: routes of a group in order, the first error aborts. -/
+theorem tie_engineBindFeaturedStmts : engineBindFeaturedStmts = [
+  "verifier, err := ng.signatureVerifier(fr.signature)",
+  "if err != nil {",
+  "return err",
+  "}",
+  "range _, route := fr.routes {",
+  "if err := ng.bindRoute(fr, router, metrics, route, verifier); err != nil {",
+  "return err",
+  "}",
+  "}",
+  "return nil"] := by rfl
+
+/-- `engine.bindRoute` — model: `router.Handle(route.Method, route.Path, chain(route.Handler))`: method and path unchanged, the handler is the route's own behind the middleware chain. -/
+theorem tie_engineBindRouteStmts : engineBindRouteStmts = [
+  "chn := ng.chain",
+  "if chn == nil {",
+  "chn = ng.buildChainWithNativeMiddlewares(fr, route, metrics)",
+  "}",
+  "chn = ng.appendAuthHandler(fr, chn, verifier)",
+  "range _, middleware := ng.middlewares {",
+  "chn = chn.Append(convertMiddleware(middleware))",
+  "}",
+  "handle := chn.ThenFunc(route.Handler)",
+  "return router.Handle(route.Method, route.Path, handle)"] := by rfl
+
+/-- `engine.notFoundHandler` — model `NFHandler.engine next`: `next` (or `http.NotFoundHandler()`) runs behind trace/log, then the status is forced to 404 unless already written (driver `fmtResponse`). -/
+theorem tie_engineNotFoundStmts : engineNotFoundStmts = [
+  "return http.HandlerFunc(func(w http.ResponseWriter, r *http.Request){...})",
+  "func{",
+  "chn := chain.New( handler.TraceHandler(ng.conf.Name, \"\", handler.WithTraceIgnorePaths(ng.conf.TraceIgnorePaths)), )",
+  "if ng.conf.Middlewares.Log {",
+  "chn = chn.Append(ng.getLogHandler())",
+  "}",
+  "var h http.Handler",
+  "if next != nil {",
+  "h = chn.Then(next)",
+  "}",
+  "else{",
+  "h = chn.Then(http.NotFoundHandler())",
+  "}",
+  "cw := response.NewHeaderOnceResponseWriter(w)",
+  "h.ServeHTTP(cw, r)",
+  "cw.WriteHeader(http.StatusNotFound)",
+  "}"] := by rfl
+
+/-- `NewServer` — model `newServer`: a fresh `router.NewRouter()`, `WithNotFoundHandler(nil)` first, then the options in the given order. -/
+theorem tie_newServerStmts : newServerStmts = [
+  "if err := c.SetUp(); err != nil {",
+  "return nil, err",
+  "}",
+  "server := &Server{ ngin: newEngine(c), router: router.NewRouter(), }",
+  "opts = append([]RunOption{WithNotFoundHandler(nil)}, opts...)",
+  "range _, opt := opts {",
+  "opt(server)",
+  "}",
+  "return server, nil"] := by rfl
+
+/-- `Server.AddRoutes` — model `Group`/`Server.addRoutes`: the route options (WithPrefix) are applied to the group, then `engine.addRoutes`. -/
+theorem tie_serverAddRoutesStmts : serverAddRoutesStmts = [
+  "r := featuredRoutes{ routes: rs, }",
+  "range _, opt := opts {",
+  "opt(&r)",
+  "}",
+  "s.ngin.addRoutes(r)"] := by rfl
+
+/-- `Server.Routes` — what the harness prints for a `group` op: the stored routes in order. -/
+theorem tie_serverRoutesStmts : serverRoutesStmts = [
+  "routes := make([]Route, 0, len(s.ngin.routes))",
+  "range _, r := s.ngin.routes {",
+  "routes = append(routes, r.routes...)",
+  "}",
+  "return routes"] := by rfl
+
+/-- `WithPrefix` — model `Group.regs`/`joinRaw`: every route path becomes `path.Join(group, path)`, method and handler kept. -/
+theorem tie_withPrefixStmts : withPrefixStmts = [
+  "return func(r *featuredRoutes){...}",
+  "func{",
+  "routes := make([]Route, 0, len(r.routes))",
+  "range _, rt := r.routes {",
+  "p := path.Join(group, rt.Path)",
+  "routes = append(routes, Route{ Method: rt.Method, Path: p, Handler: rt.Handler, })",
+  "}",
+  "r.routes = routes",
+  "}"] := by rfl
+
+/-- `WithNotFoundHandler` — model `Server.apply (.notFound h)`: the router's notFound is the engine wrapper around `h`. -/
+theorem tie_withNotFoundStmts : withNotFoundStmts = [
+  "return func(server *Server){...}",
+  "func{",
+  "notFoundHandler := server.ngin.notFoundHandler(handler)",
+  "server.router.SetNotFoundHandler(notFoundHandler)",
+  "}"] := by rfl
+
+/-- `WithNotAllowedHandler` — model `Server.apply (.notAllowed h)`: set on the router as is (no wrapper; nil = default 405 + Allow). -/
+theorem tie_withNotAllowedStmts : withNotAllowedStmts = [
+  "return func(server *Server){...}",
+  "func{",
+  "server.router.SetNotAllowedHandler(handler)",
+  "}"] := by rfl
 
 end GoZero.C09.Tie
